@@ -10,7 +10,7 @@ for i in range(1, 19):
     pid = "C%02d" % i
     prev = open("/tmp/seed/%sr%d.prompt.txt" % (pid, n - 1)).read()
     prev = prev.replace("%sr%d" % (pid, n - 1), "%sr%d" % (pid, n))
-    extra = "".join(" - %s\n" % k for k in BY_ROUND[n - 1][pid])
+    extra = "".join(" - %s\n" % k for k in BY_ROUND.get(n - 1, {}).get(pid, []))
     m = re.search(r"(IMPORTANT: .* changes for this property are already known.*?\n)((?: - .*\n)+)", prev)
     if not m:
         raise SystemExit("no known-list in previous prompt of " + pid)
